@@ -157,6 +157,10 @@ func LoadRuleOfResource(res string, rule *Rule) (bool, error) {
 	defer updateRuleMux.Unlock()
 	// clear resource rule
 	if rule == nil {
+		if _, loaded := currentRules[res]; !loaded {
+			// nothing was loaded for the resource, so there is nothing to clear
+			return false, nil
+		}
 		delete(currentRules, res)
 		updateMux.Lock()
 		delete(nodeBreakers, res)
